@@ -387,7 +387,11 @@ class LocationDB(object):
             foreign_names = location_db.get_location_names(foreign_loc_key)
             foreign_offset = location_db.get_location_offset(foreign_loc_key)
             if foreign_names:
-                init_name = list(foreign_names)[0]
+                init_name = sorted(foreign_names)[0]
+                for name in sorted(foreign_names):
+                    if self.get_name_location(name) is not None:
+                        init_name = name
+                        break
             else:
                 init_name = None
             loc_key = self.add_location(offset=foreign_offset, name=init_name,
